@@ -21,6 +21,8 @@ mod relay_exec;
 mod rln_exec;
 #[cfg(all(feature = "pmtree", not(feature = "stateless")))]
 mod storage_exec;
+#[cfg(all(feature = "pmtree", not(feature = "stateless")))]
+mod pm_exec;
 mod tree_exec;
 mod util;
 
@@ -68,6 +70,15 @@ fn main() {
             hash_exec::run(arg(&args, "--seed").unwrap_or("1").parse().unwrap(), arg(&args, "--consts").expect("--consts"),
                            arg(&args, "--tier") == Some("thorough"), &mut out);
             write_ndjson(arg(&args, "--out").expect("--out"), &out);
+        }
+        #[cfg(all(feature = "pmtree", not(feature = "stateless")))]
+        "pmnodes" => {
+            let mut it = intern::Interner::new();
+            let mut out = Vec::new();
+            pm_exec::run(arg(&args, "--seed").unwrap_or("1").parse().unwrap(), arg(&args, "--depth").unwrap_or("2").parse().unwrap(),
+                         arg(&args, "--count").unwrap_or("20").parse().unwrap(), arg(&args, "--len").unwrap_or("25").parse().unwrap(), &mut out, &mut it);
+            write_ndjson(arg(&args, "--out").expect("--out"), &out);
+            write_json(arg(&args, "--table").expect("--table"), &it.tables());
         }
         #[cfg(not(feature = "stateless"))]
         "poseidon-consts" => {
